@@ -1,5 +1,12 @@
 /-
-C16 — see DESIGN.md §5.
+C16 — metric threads: sizes come from the table, the minor diameter follows the ISO proportion,
+a missing size uses the next smaller listed one, and the nut's thread is larger than the bolt's.
+
+`Gen.threadTable` is regenerated from metric_thread.rs on every run; the table facts below are
+`decide +kernel` over the regenerated table, so an edited row breaks the proof obligation.  The
+thread mesh itself (start at z = 0, radii between minor and major, one pitch per turn, handedness)
+is compared vertex by vertex with the crate's mesh and checked by the Lean oracle on every case of
+the run; those mesh facts are not theorems (PARTIAL).
 -/
 import ScadVerif.Lemmas.PtReal
 import ScadVerif.Model.Parts
@@ -8,5 +15,181 @@ open ScadVerif ScadVerif.Thread
 
 /-- the table has a row for M2, so the lookup loop terminates for every requested size -/
 theorem m2_listed : (findRow 2).isSome = true := by decide +kernel
+
+/-! ### the lookup -/
+theorem findRow_key (k : Nat) (r : Gen.ThreadRow) (h : findRow k = some r) : r.key = k := by
+  have := List.find?_some h
+  simpa using this
+
+/-- counting down from `n` returns the largest listed size not above `n` -/
+theorem lookupFrom_spec (n : Nat) (r : Gen.ThreadRow) (h : lookupFrom n = some r) :
+    r.key ≤ n ∧ findRow r.key = some r ∧ ∀ k, r.key < k → k ≤ n → findRow k = none := by
+  induction n with
+  | zero =>
+    simp only [lookupFrom] at h
+    have := findRow_key 0 r h
+    exact ⟨by omega, by rw [this]; exact h, fun k h1 h2 => by omega⟩
+  | succ m ih =>
+    simp only [lookupFrom] at h
+    cases hf : findRow (m + 1) with
+    | some r' =>
+      rw [hf] at h
+      injection h with h; subst h
+      have := findRow_key (m + 1) r' hf
+      exact ⟨by omega, by rw [this]; exact hf, fun k h1 h2 => by omega⟩
+    | none =>
+      rw [hf] at h
+      obtain ⟨h1, h2, h3⟩ := ih h
+      refine ⟨by omega, h2, fun k hk1 hk2 => ?_⟩
+      by_cases hk : k = m + 1
+      · subst hk; exact hf
+      · exact h3 k hk1 (by omega)
+
+theorem lookupFrom_some (n : Nat) (hn : 2 ≤ n) : (lookupFrom n).isSome = true := by
+  induction n with
+  | zero => omega
+  | succ m ih =>
+    simp only [lookupFrom]
+    cases hf : findRow (m + 1) with
+    | some r => rfl
+    | none =>
+      by_cases hm : m + 1 = 2
+      · rw [hm] at hf; have := m2_listed; rw [hf] at this; simp at this
+      · exact ih (by omega)
+
+/-- the size actually looked up: requests below 2 are clamped to 2 -/
+def effective (m : Int) : Nat := if m < 2 then 2 else m.toNat
+
+/-- **C16, lookup.** For every `m : i32` (indeed every integer) the lookup succeeds and returns the
+row of the largest listed size not above `max m 2`: the size itself when it is listed, the next
+smaller listed size otherwise, M2 below the table. -/
+theorem lookup_spec (m : Int) :
+    ∃ r, lookup m = some r ∧ r.key ≤ effective m ∧ findRow r.key = some r ∧
+      ∀ k, r.key < k → k ≤ effective m → findRow k = none := by
+  have h2 : 2 ≤ effective m := by unfold effective; split <;> omega
+  have hs := lookupFrom_some (effective m) h2
+  cases h : lookupFrom (effective m) with
+  | none => rw [h] at hs; simp at hs
+  | some r => exact ⟨r, h, lookupFrom_spec _ r h⟩
+
+theorem lookup_listed (m : Int) (hm : 2 ≤ m) (r : Gen.ThreadRow) (h : findRow m.toNat = some r) :
+    lookup m = some r := by
+  obtain ⟨r', h1, h2, h3, h4⟩ := lookup_spec m
+  have he : effective m = m.toNat := by unfold effective; split <;> omega
+  rw [he] at h2 h4
+  by_cases hk : r'.key = m.toNat
+  · rw [hk] at h3; rw [h1, ← h3, h]
+  · have := h4 m.toNat (by omega) (Nat.le_refl _)
+    rw [this] at h; simp at h
+
+theorem lookup_below_two (m : Int) (hm : m < 2) : lookup m = findRow 2 := by
+  obtain ⟨r, h1, h2, h3, h4⟩ := lookup_spec m
+  have he : effective m = 2 := by unfold effective; simp [hm]
+  rw [he] at h2 h4
+  have hk : r.key = 2 := by
+    by_contra hne
+    have := h4 2 (by omega) (Nat.le_refl _)
+    have h2l := m2_listed; rw [this] at h2l; simp at h2l
+  rw [h1, ← h3, hk]
+
+/-- the largest listed size is M100 -/
+theorem table_top : (∀ r ∈ Gen.threadTable, r.key ≤ 100) ∧ (findRow 100).isSome = true := by
+  decide +kernel
+
+theorem lookup_above_table (m : Int) (hm : 100 ≤ m) : lookup m = findRow 100 := by
+  obtain ⟨r, h1, h2, h3, h4⟩ := lookup_spec m
+  have he : effective m = m.toNat := by unfold effective; split <;> omega
+  rw [he] at h2 h4
+  have hmem : r ∈ Gen.threadTable := List.mem_of_find?_eq_some h3
+  have hle := table_top.1 r hmem
+  have hk : r.key = 100 := by
+    by_contra hne
+    have := h4 100 (by omega) (by omega)
+    have ht := table_top.2; rw [this] at ht; simp at ht
+  rw [h1, ← h3, hk]
+
+/-- the keys are distinct and sorted: "next smaller listed size" is unambiguous -/
+theorem table_sorted : (Gen.threadTable.map (·.key)).Pairwise (· < ·) := by decide +kernel
+
+/-! ### proportions -/
+/-- **C16, minor diameter**: `minor = major − 2·(5/8)·(√3/2)·pitch` -/
+theorem dMin_formula (dMaj pitch : ℝ) :
+    (dMin dMaj pitch : ℝ) = dMaj - 2 * (5 / 8) * (Real.sqrt 3 / 2) * pitch := by
+  simp [dMin, threadHeight]; ring
+theorem dMin_lt_dMaj (dMaj pitch : ℝ) (hp : 0 < pitch) : (dMin dMaj pitch : ℝ) < dMaj := by
+  rw [dMin_formula]
+  have : 0 < Real.sqrt 3 := Real.sqrt_pos.mpr (by norm_num)
+  have : 0 < 2 * (5 / 8) * (Real.sqrt 3 / 2) * pitch := by positivity
+  linarith
+/-- with the same pitch the larger major diameter has the larger minor diameter -/
+theorem dMin_mono (a b pitch : ℝ) (h : a < b) : (dMin a pitch : ℝ) < dMin b pitch := by
+  rw [dMin_formula, dMin_formula]; linarith
+
+/-! ### table facts over the regenerated table -/
+/-- comparison of two decimal literals by cross-multiplication -/
+def decLt (a b : Gen.Dec) : Bool := a.num * 10 ^ b.digits < b.num * 10 ^ a.digits
+
+theorem decLt_val (a b : Gen.Dec) (h : decLt a b = true) :
+    (Gen.Dec.val a : ℝ) < Gen.Dec.val b := by
+  simp only [decLt, decide_eq_true_eq] at h
+  simp only [Gen.Dec.val, cast_eq_natCast]
+  have ha : (0 : ℝ) < ((10 ^ a.digits : Nat) : ℝ) := by positivity
+  have hb : (0 : ℝ) < ((10 ^ b.digits : Nat) : ℝ) := by positivity
+  rw [div_lt_div_iff₀ ha hb]
+  exact_mod_cast h
+
+theorem rows_internal_larger :
+    ∀ r ∈ Gen.threadTable, decLt r.externalDMaj r.internalDMaj = true ∧ 0 < r.pitch.num := by
+  decide +kernel
+
+/-- **C16, fit.** For every listed size the internal (nut, tap) thread is larger than the external
+(bolt, rod) thread, in major and in minor diameter, and the pitch is positive. -/
+theorem nut_fits_bolt (r : Gen.ThreadRow) (hr : r ∈ Gen.threadTable) :
+    (Gen.Dec.val r.externalDMaj : ℝ) < Gen.Dec.val r.internalDMaj ∧
+    (dMin (Gen.Dec.val r.externalDMaj) (Gen.Dec.val r.pitch) : ℝ) <
+      dMin (Gen.Dec.val r.internalDMaj) (Gen.Dec.val r.pitch) ∧
+    (0 : ℝ) < Gen.Dec.val r.pitch := by
+  obtain ⟨h1, h2⟩ := rows_internal_larger r hr
+  have hlt := decLt_val _ _ h1
+  refine ⟨hlt, dMin_mono _ _ _ hlt, ?_⟩
+  simp only [Gen.Dec.val, cast_eq_natCast]
+  have : (0 : ℝ) < (r.pitch.num : ℝ) := by exact_mod_cast h2
+  positivity
+
+/-- and since every request resolves to a listed row, that holds for every size `m` -/
+theorem nut_fits_bolt_every_size (m : Int) :
+    ∃ r, lookup m = some r ∧ (Gen.Dec.val r.externalDMaj : ℝ) < Gen.Dec.val r.internalDMaj := by
+  obtain ⟨r, h1, _, h3, _⟩ := lookup_spec m
+  exact ⟨r, h1, (nut_fits_bolt r (List.mem_of_find?_eq_some h3)).1⟩
+
+/-- √3 < 1.7321, used to bound the thread depth -/
+theorem sqrt3_lt : Real.sqrt 3 < 1.7321 := by
+  rw [Real.sqrt_lt' (by norm_num)]; norm_num
+
+/-- the minor diameter of every listed external thread is positive (the thread does not cut
+through the core): `8·d_maj > 5·1.7321·pitch` row by row -/
+theorem rows_core_positive :
+    ∀ r ∈ Gen.threadTable,
+      5 * 17321 * r.pitch.num * 10 ^ r.externalDMaj.digits <
+        8 * 10000 * r.externalDMaj.num * 10 ^ r.pitch.digits := by
+  decide +kernel
+
+theorem minor_positive (r : Gen.ThreadRow) (hr : r ∈ Gen.threadTable) :
+    (0 : ℝ) < dMin (Gen.Dec.val r.externalDMaj) (Gen.Dec.val r.pitch) := by
+  have h := rows_core_positive r hr
+  rw [dMin_formula]
+  simp only [Gen.Dec.val, cast_eq_natCast]
+  have ha : (0 : ℝ) < ((10 ^ r.externalDMaj.digits : Nat) : ℝ) := by positivity
+  have hb : (0 : ℝ) < ((10 ^ r.pitch.digits : Nat) : ℝ) := by positivity
+  have hs := sqrt3_lt
+  have hs0 : 0 ≤ Real.sqrt 3 := Real.sqrt_nonneg 3
+  have hp : (0 : ℝ) ≤ (r.pitch.num : ℝ) / ((10 ^ r.pitch.digits : Nat) : ℝ) := by positivity
+  have hR : (5 * 17321 * (r.pitch.num : ℝ) * ((10 ^ r.externalDMaj.digits : Nat) : ℝ)) <
+      8 * 10000 * (r.externalDMaj.num : ℝ) * ((10 ^ r.pitch.digits : Nat) : ℝ) := by exact_mod_cast h
+  have key : 5 * 1.7321 * ((r.pitch.num : ℝ) / ((10 ^ r.pitch.digits : Nat) : ℝ)) <
+      8 * ((r.externalDMaj.num : ℝ) / ((10 ^ r.externalDMaj.digits : Nat) : ℝ)) := by
+    rw [mul_div_assoc', mul_div_assoc', div_lt_div_iff₀ hb ha]
+    nlinarith
+  nlinarith
 
 end ScadVerif.C16
